@@ -72,6 +72,9 @@ type Scenario struct {
 	// Twin runs after each execution, outside the bubble: it may re-execute the same choices on a
 	// variant and append violations to h.Viol (metamorphic oracles).
 	Twin func(t *testing.T, s *Scenario, h *Hist, choices []int)
+	// Prune enables revisited-state pruning for this scenario even when its check does not prune
+	// globally (scenarios without a twin / baseline oracle).
+	Prune bool
 	// Lenient executions swallow a divergence between forced choices and menus (twins only).
 	Lenient bool
 	// Shared is scenario-level scratch space for Prepare / Twin / monitors.
